@@ -322,13 +322,22 @@ fn execute(c: &Case, input: &[u8]) -> Exec {
         "builder" => {
             let results: Vec<DataType> = if c.params == 2 { vec![DataType::I32] } else { vec![] };
             let mut b = FunctionBuilder::new(&params_dt(c.params), &results);
-            for dt in dts.iter() {
+            // split > 0: the first `split` locals through the builder, the rest through a modifier of the
+            // finished function (the function's local bookkeeping must survive finish_module)
+            let s = if c.split == 0 { dts.len() } else { (c.split as usize).min(dts.len()) };
+            for dt in dts[..s].iter() {
                 returned.push(Some(*b.add_local(*dt)));
             }
             if c.params == 2 {
                 b.i32_const(7);
             }
-            b.finish_module(&mut module);
+            let fid = b.finish_module(&mut module);
+            if s < dts.len() {
+                let mut m = module.functions.get_fn_modifier(fid).expect("library: get_fn_modifier refuses a function added with finish_module");
+                for dt in dts[s..].iter() {
+                    returned.push(Some(*m.add_local(*dt)));
+                }
+            }
         }
         "modifier" => {
             let mut m = module.functions.get_fn_modifier(FunctionID(fid_of(c, 0))).expect("modifier of a local function");
@@ -609,6 +618,10 @@ pub fn check(tier: Tier) -> i32 {
             for params in 0..3u8 {
                 for s in seqs.iter() {
                     cases.push(Case { api: "builder".into(), k, target: 0, params, pre: 0, seq: s.clone(), split: 0, who: vec![], other: 0 });
+                    // ... and with the last 1 .. len-1 locals added through a modifier after finish_module
+                    for split in 1..s.len() {
+                        cases.push(Case { api: "builder".into(), k, target: 0, params, pre: 0, seq: s.clone(), split: split as u8, who: vec![], other: 0 });
+                    }
                 }
             }
         }
